@@ -26,6 +26,7 @@ type Roles struct {
 	// connection flow
 	closeCallback, onClose, onHup, onProcess, onRequestM, onConnectM, onDisconnectM *ssa.Function
 	task, taskPanic                                                                 *ssa.Function
+	absent                                                                          []string
 	finalizer                                                                       *ssa.Function
 	triggerRead, triggerWrite                                                       *ssa.Function
 }
@@ -81,7 +82,9 @@ func rolesOf(w *World) *Roles {
 	// handler task: the closure handed to runner.RunTask by the function that trylocks `processing`
 	r.task = closureArgOfDynCall(r.onProcess, "global:runner.RunTask", 1)
 	if r.task == nil {
-		broken("ANCHOR-LOST config=%s handler task closure (argument of runner.RunTask in onProcess) not found", w.Cfg.Name)
+		r.absent = append(r.absent, "onProcess no longer hands a task closure to runner.RunTask")
+		rolesCache[w] = r
+		return r
 	}
 	// its panic path: the deferred closure
 	forEachIns(r.task, func(ins ssa.Instruction) {
@@ -94,7 +97,9 @@ func rolesOf(w *World) *Roles {
 		}
 	})
 	if r.taskPanic == nil {
-		broken("ANCHOR-LOST config=%s deferred panic closure of the handler task not found", w.Cfg.Name)
+		r.absent = append(r.absent, "the handler task no longer defers a panic path")
+		rolesCache[w] = r
+		return r
 	}
 	// finalizer: the CloseCallback closure that calls FDOperator.Free
 	for _, fn := range w.Funcs {
@@ -104,7 +109,7 @@ func rolesOf(w *World) *Roles {
 		}
 	}
 	if r.finalizer == nil {
-		broken("ANCHOR-LOST config=%s finalizer closure (close callback calling FDOperator.Free) not found", w.Cfg.Name)
+		r.absent = append(r.absent, "no close callback that frees the poller slot (the connection finalizer) is registered")
 	}
 	rolesCache[w] = r
 	return r
